@@ -87,6 +87,12 @@ def build_workspace(ws, tier):
     info = gen_fixtures.generate(ws, tier, REPO)
     shutil.copytree(os.path.join(VERIF, 'selftest'), os.path.join(ws, 'selftest'),
                     ignore=shutil.ignore_patterns('target', 'Cargo.lock'))
+    if REPO != '/repo':
+        ct = os.path.join(ws, 'selftest', 'Cargo.toml')
+        with open(ct) as f:
+            txt = f.read()
+        with open(ct, 'w') as f:
+            f.write(txt.replace('"/repo/', '"%s/' % REPO))
     members = ['fx_sync', 'fx_async', 'selftest']
     try:
         from . import gen_witness
